@@ -17,6 +17,12 @@ def _c19_units(tier, seed):
     add('msan', 'C06', 'dz', 60, 2000, 20)
     add('msan', 'C15', 'dz', 150, 5000, 50)
     add('msan', 'C08', 'd', 8, 200, 2, cpu=120)
+    # MemorySanitizer with 64-bit indices: partial clears / short copies of int_t arrays read uninitialised words only in this configuration
+    add('msan-i64', 'C19', 'dz', 300, 4000, 50)
+    add('msan-i64', 'C17', 'ds', 400, 6000, 100)
+    add('msan-i64', 'C16', 'dz', 200, 3000, 50)
+    add('msan-i64', 'C10', 'd', 600, 8000, 100)
+    add('msan-i64', 'C15', 'dz', 100, 3000, 50)
     # refactor / re-solve histories (reuse of storage that moves during a refactorization) under ASan: memory-class keys only
     add('asan', 'C06', 'sdcz', 250, 8000, 25)
     # storage-acquisition variants incl. the capacity walk (every growth site at the exactly-full state) under ASan: memory-class keys only
